@@ -8,7 +8,7 @@ package render
 //@ ghost cac(m) = as[*cache.Cache](m)
 //@ pred memOk(m) = typeis[*cache.Cache](m) && cache.shape(cac(m))
 //@ pred sizerOk(szr) = szr != nil && szr.memberSizes != nil
-//@ pred pageOk(pg) = pg != nil && pg.cacheMap != nil && memOk(pg.cache) && (pg.sizer != nil ==> sizerOk(pg.sizer))
+//@ pred pageOk(pg) = pg != nil && pg.cacheMap != nil && memOk(pg.cache) && (pg.sizer != nil ==> sizerOk(pg.sizer)) && pg.resource != nil
 
 // Check is the only place where the size budget is compared with the output.
 //@ func (*Sizer).Check
@@ -44,16 +44,36 @@ package render
 //@ modset menuState(m) = m.menu, m.menu[*], m.canNext, m.canPrevious, m.pageCount
 //@ modset sizerState(szr) = szr.crsrs, szr.crsrs[*], szr.sink, szr.memberSizes[*], szr.totalMemberSize
 
+// RenderTemplate is verified: frame (nothing of the page, menu or sizer changes), no
+// panic, the template is looked up with the caller's context (its language: C18), and a
+// template that does not parse or execute is an error, never a panic. text/template itself
+// is assumed (stubs): the text produced is unconstrained.
 //@ func (*Page).RenderTemplate
-//@   assumed
-//@   requires pg != nil
-//@   modifies nothing
+//@   serves C18
+//@   requires pg != nil && pg.resource != nil
+// prepare (assumed) hands the page starts recorded by joinSink to the sizer unchanged: they lie inside the sink content (C02)
+//@   premise[C02] pg.sizer != nil && pg.sizer.sink != "" && in(pg.sizer.sink, values) ==> forall(i, 0, len(pg.sizer.crsrs), int(pg.sizer.crsrs[i]) <= len(values[pg.sizer.sink]))
+//@   modifies bufStr[ALL]
+//@   callsite (resource.Resource).GetTemplate assert[C18] @ctx arg1 == ctx && arg2 == sym
 
+// Menu.Render is verified: frame, no panic, and every label lookup is made with the
+// caller's context (its language: C18). The text it builds is unconstrained (checked
+// afterwards by the size audit).
+//@ func (*Menu).titleFor
+//@   serves C18
+//@   requires m != nil
+//@   modifies nothing
+//@   callsite (resource.Resource).GetMenu assert[C18] @ctx arg1 == ctx
 //@ func (*Menu).Render
-//@   assumed
+//@   serves C18
 //@   requires m != nil
 //@   modifies menuState(m)
+//@   callsite (*Menu).titleFor assert[C18] @ctx arg1 == ctx
 //@   ensures sameBacking(m.menu, old(m.menu)) || fresh(m.menu) || m.menu == nil
+//@   loop 1 invariant m != nil && len(menuCopy) <= cap(menuCopy) && (menuCopy == nil || fresh(menuCopy))
+//@   loop 1 modifies menuCopy[*]
+//@   loop 2 invariant m != nil && (menuCopy == nil || fresh(menuCopy)) && (sameBacking(m.menu, old(m.menu)) || fresh(m.menu) || m.menu == nil)
+//@   loop 2 modifies m.menu
 
 //@ func (*Page).prepare
 //@   assumed
@@ -65,14 +85,15 @@ package render
 // (under the VM the page always has a menu; the menu-less use of Page is outside these contracts)
 //@ func (*Page).render
 //@   serves C01
-//@   requires pg != nil && pg.menu != nil
-//@   modifies menuState(pg.menu)
+//@   requires pg != nil && pg.menu != nil && pg.resource != nil
+//@   modifies menuState(pg.menu), bufStr[ALL]
 //@   ensures @fits result1 == nil && pg.sizer != nil && pg.sizer.outputSize > 0 ==> len(result0) <= int(pg.sizer.outputSize)
 //@   ensures @err result1 != nil ==> result0 == ""
 
 //@ func (*Page).Render
 //@   serves C01
-//@   requires pg != nil && pg.menu != nil
+//@   requires pg != nil && pg.menu != nil && pg.resource != nil
+//@   modifies bufStr[ALL]
 //@   modifies pg.extra, pg.menu.menu, pg.menu.menu[*], pg.menu.canNext, pg.menu.canPrevious, pg.menu.pageCount, pg.menu.keep
 //@   modifies sizerState(pg.sizer)
 //@   ensures @fits result1 == nil && pg.sizer != nil && pg.sizer.outputSize > 0 ==> len(result0) <= int(pg.sizer.outputSize)
@@ -121,6 +142,7 @@ package render
 //@   safety[C02]
 //@   requires m != nil
 //@   modifies m.menu, m.menu[*], m.canNext, m.canPrevious
+//@   ensures @backing sameBacking(m.menu, old(m.menu)) || fresh(m.menu)
 //@   ensures[C02] @unpaged m.pageCount == 0 ==> (idx > 0 ==> result != nil) && (idx == 0 ==> result == nil) && len(m.menu) == old(len(m.menu))
 //@   ensures[C02] @past m.pageCount > 0 && idx >= m.pageCount ==> typeis[*BrowseError](result) && len(m.menu) == old(len(m.menu))
 //@   ensures[C02] @inrange m.pageCount > 0 && idx < m.pageCount ==> result == nil
